@@ -17,6 +17,9 @@
     Oracle (Spec/LvsSem.saneb): accepted => sane; not sane => LvsModelError (not some other exception);
     sane and rejected => only for a signing cycle; every query on an accepted model ends within the step
     budget (budget exhaustion = "diverges") and agrees with the model's machine.
+    The same on the wire: every TLV element of the encoded model removed (one at a time at every depth; one type everywhere),
+    loaded with Checker.load.  The model handed to the specification is what an independent reader of the documented format
+    finds in the bytes -- not the object the library's parser builds (a parser may fill in what is absent).
 """
 from harness.props import lvs_common as L
 from harness.props.c11 import name_pool
@@ -30,7 +33,12 @@ RULE = ('A: generated schemas x {undefined rule, temporary rule, self reference,
         'reference at a random (thorough: 3 random) rule / position; B: compiled models x every '
         'single-field corruption (version, start id, named-pattern count, node id, parent, edge destination, edge '
         'value/tag, signer entry, 11 option shapes) to {0, other valid id, out of range, 2^63, absent}, direct and '
-        'via save/load, then all names to length 2 + guided names under a step budget; non-trivial = the input differs '
+        'via save/load; the same compiled models as BYTES x every single TLV element at every nesting depth removed (Version, '
+        'StartId, NamedPatternCnt, each Node, and inside: NodeId, ParentId, Identifier, each edge and its NodeId / Value / Tag, '
+        'Constraint, ConsOption and its Value / Tag / UserFnCall, UserFnId, FnArgs, KeyNodeId, TagSymbol and its Tag / Identifier) '
+        'and every TLV type removed everywhere at once, loaded with Checker.load and judged on what a reader of the documented '
+        'format (in the harness, no ndn.encoding) finds in those bytes; the parsed object is compared with that reading; '
+        'then all names to length 2 + guided names under a step budget; non-trivial = the input differs '
         'from a valid schema/model; distinct by (schema, injection) / (model, corruption)')
 ASSUMPTIONS = ['a query is observed as diverging when it performs more than 200000 node look-ups',
                'TLV encoding of corrupted models uses the real codec (values it cannot encode are only tested in memory)']
@@ -185,6 +193,29 @@ def check_loader(ctx, mk, fe, label, names, via_load, wire=None):
                       'load' if via_load else 'mem', 'Checker()')
 
 
+def _ctx_key(kv):
+    """a pattern whose TagSymbol carries no Identifier is reported under the key None: sortable next to bytes"""
+    return (kv[0] is not None, kv[0] or b'', kv[1])
+
+
+def impl_match(chk, name):
+    """as lvs_common.impl_match, the context sorted with absent identifiers first"""
+    if isinstance(chk.model.nodes, L.CountingList):
+        chk.model.nodes.left = L.IMPL_BUDGET
+    try:
+        out = []
+        for rn, cx in chk.match(name):
+            out.append([[x.encode() for x in rn],
+                        sorted([[k.encode() if isinstance(k, str) else k, bytes(v)] for k, v in cx.items()], key=_ctx_key)])
+        return ('ok', out)
+    except Exception as e:   # noqa
+        return ('err', L.exc_code(e), type(e).__name__ + ': ' + str(e)[:120])
+
+
+def model_match_result(ans):
+    return [[list(rn), sorted([[(k[0] if k else None), v] for k, v in cx], key=_ctx_key)] for rn, cx in ans]
+
+
 def check_loader_core(ctx, dump, c, sfe, label, names, how, site, wire=None):
     """dump: the model (nested lists, what the specification is asked about); c: outcome of building the checker"""
     M = ctx.call
@@ -214,7 +245,7 @@ def check_loader_core(ctx, dump, c, sfe, label, names, how, site, wire=None):
         chk = L.with_budget(c[1])
         impl = []
         for n in names:
-            impl.append(L.impl_match(chk, n))
+            impl.append(impl_match(chk, n))
             if impl[-1][0] == 'err' and impl[-1][1] == L.E_FUEL:
                 names = names[:len(impl)]        # one diverging query is enough (each costs the whole budget)
                 break
@@ -225,7 +256,7 @@ def check_loader_core(ctx, dump, c, sfe, label, names, how, site, wire=None):
                 ctx.violation('Checker.match', 'query-diverges-on-accepted-model', 'match() exceeds the step budget on an accepted model', dict(case, name=n))
             if not L.same_outcome(mi, ri):
                 ctx.disagree('Checker.match', 'different outcome on a corrupted model', dict(case, name=n), mi, ri[1:] if ri[0] == 'err' else ri[1])
-            elif ri[0] == 'ok' and L.canon(L.model_match_result(mi[1])) != L.canon(ri[1]):
+            elif ri[0] == 'ok' and L.canon(model_match_result(mi[1])) != L.canon(ri[1]):
                 ctx.disagree('Checker.match', 'different matches on a corrupted model', dict(case, name=n), mi[1], ri[1])
         pairs = [[names[i], names[(i * 7 + 3) % len(names)]] for i in range(0, len(names), 3)]
         implc = []
